@@ -349,6 +349,11 @@ macro_rules! quat_cases {
             $cases.push((format!("{}::lerp(non-unit end {})", t, sn), Box::new(move || { let _ = bb(uq.lerp(bb(nq), 0.3)); })));
             $cases.push((format!("{}::slerp(non-unit self {})", t, sn), Box::new(move || { let _ = bb(bb(nq).slerp(uq, 0.3)); })));
             $cases.push((format!("{}::slerp(non-unit end {})", t, sn), Box::new(move || { let _ = bb(uq.slerp(bb(nq), 0.3)); })));
+            // documented ("Will panic if `self` or `rhs` are not normalized when `glam_assert` is enabled") on mul_quat, `*`, `*=`
+            $cases.push((format!("{}::mul_quat(non-unit self {})", t, sn), Box::new(move || { let _ = bb(bb(nq).mul_quat(uq)); })));
+            $cases.push((format!("{}::mul_quat(non-unit rhs {})", t, sn), Box::new(move || { let _ = bb(uq.mul_quat(bb(nq))); })));
+            $cases.push((format!("{} * {} (non-unit self {})", t, t, sn), Box::new(move || { let _ = bb(bb(nq) * uq); })));
+            $cases.push((format!("{} *= {} (non-unit rhs {})", t, t, sn), Box::new(move || { let mut x = uq; x *= bb(nq); let _ = bb(x); })));
             $cases.push((format!("{}::mul_vec3(non-unit {})", t, sn), Box::new(move || { let _ = bb(bb(nq).mul_vec3(uv)); })));
             $cases.push((format!("{} * vec (non-unit {})", t, sn), Box::new(move || { let _ = bb(bb(nq) * uv); })));
             $cases.push((format!("{}::from_quat(non-unit {})", stringify!($M3), sn), Box::new(move || { let _ = bb(<$M3>::from_quat(bb(nq))); })));
